@@ -5,8 +5,8 @@
 #   the demonstration fails with it and passes without it.  On success copies it to /verif/seeded/<seed-name>/.
 set -u
 name="$1"; src="$2"
-W=/tmp/confirm/wt; T=/tmp/confirm/target; LOG=/verif/.cache/confirm_$name.log
-mkdir -p /tmp/confirm
+C=${CONFIRM_DIR:-/tmp/confirm}; W=$C/wt; T=$C/target; LOG=/verif/.cache/confirm_$name.log
+mkdir -p $C
 if [ ! -d "$W" ]; then git -C /repo worktree add -q --detach "$W" HEAD || exit 3; fi
 cd "$W" && git checkout -q --detach "$(git -C /repo rev-parse HEAD)" && git checkout -q -- . && git clean -fdq examples
 {
@@ -17,16 +17,16 @@ demo=$(ls "$src"/demo*.rs 2>/dev/null | head -1)
 ex=demo_$name
 [ -n "$demo" ] && cp "$demo" "examples/$ex.rs"
 export CARGO_TARGET_DIR=$T CARGO_NET_OFFLINE=true
-timeout 5400 cargo test --workspace --no-fail-fast --offline 2>&1 | grep -E "^test result|FAILED|failed|^error" > /tmp/confirm/tests_$name.txt
-cat /tmp/confirm/tests_$name.txt
-passed=$(grep -E "^test result: ok" /tmp/confirm/tests_$name.txt | sed -E 's/.*ok\. ([0-9]+) passed.*/\1/' | paste -sd+ | bc)
-failed=$(grep -cE "FAILED|^error|test result: FAILED" /tmp/confirm/tests_$name.txt)
+timeout 5400 cargo test --workspace --no-fail-fast --offline 2>&1 | grep -E "^test result|FAILED|failed|^error" > $C/tests_$name.txt
+cat $C/tests_$name.txt
+passed=$(grep -E "^test result: ok" $C/tests_$name.txt | sed -E 's/.*ok\. ([0-9]+) passed.*/\1/' | paste -sd+ | bc)
+failed=$(grep -cE "FAILED|^error|test result: FAILED" $C/tests_$name.txt)
 echo "tests passed=$passed failed_lines=$failed"
 if [ -n "$demo" ]; then
-  timeout 1800 cargo run --quiet --example $ex --offline > /tmp/confirm/demo_with_$name.txt 2>&1; rc_with=$?
+  timeout 1800 cargo run --quiet --example $ex --offline > $C/demo_with_$name.txt 2>&1; rc_with=$?
   git apply -R "$src/patch.diff"
-  timeout 1800 cargo run --quiet --example $ex --offline > /tmp/confirm/demo_without_$name.txt 2>&1; rc_without=$?
-  echo "demo with change rc=$rc_with ($(tail -1 /tmp/confirm/demo_with_$name.txt | cut -c1-120)); without rc=$rc_without ($(tail -1 /tmp/confirm/demo_without_$name.txt | cut -c1-120))"
+  timeout 1800 cargo run --quiet --example $ex --offline > $C/demo_without_$name.txt 2>&1; rc_without=$?
+  echo "demo with change rc=$rc_with ($(tail -1 $C/demo_with_$name.txt | cut -c1-120)); without rc=$rc_without ($(tail -1 $C/demo_without_$name.txt | cut -c1-120))"
 else
   rc_with=1; rc_without=0; echo "no demo.rs (shell demo not run here)"
 fi
